@@ -585,9 +585,45 @@ def witness_unready(ctx):
             "produces for harness/example_unready.json")
 
 
+def witness_findings(ctx):
+    """Replays the stored witness episode of every listed outcome finding of this property (harness/finding_witnesses.json, written by
+    mk_finding_witnesses.py, never at check time) through the same classification as the sampled episodes: each finding that still
+    reproduces yields its violation (matched against KNOWN_FINDINGS.json like any other), whatever the seed of the run."""
+    import types
+    import batch
+    import jsl
+    import trace
+    path = ctx.verif / "harness" / "finding_witnesses.json"
+    if not path.exists():
+        return
+    done = {}
+    for w in json.loads(path.read_text()):
+        if w.get("property") != ctx.prop:
+            continue
+        cfg = jsl.with_cfg(jsl.load_config(), **(w.get("cfg") or {}))
+        tracer = trace.Tracer()
+        tracer.want_pre = True
+        it = iter(w["actions"])
+        try:
+            env, end, actions, et = batch.run_episode(tracer, w["dsl"], cfg, lambda e: next(it, 1), max_steps=max(1, len(w["actions"])))
+        except jsl.Unsupported:
+            end = "unsupported"
+        done[w["id"]] = end
+        if end in ("terminated", "truncated", "maxsteps", "unsupported") or end.startswith("compile:"):
+            continue
+        k = len(tracer.records) - 1 if tracer.records else None
+        ep = types.SimpleNamespace(end=end)
+        v = {"kind": "outcome:" + end, "detail": "episode ended with %s (stored witness of %s)" % (end, w["id"]),
+             "replay": {"dsl": w["dsl"], "cfg": w.get("cfg") or {}, "actions": w["actions"]}}
+        v["facts"] = outcome_facts(ep, tracer.records[k] if k is not None else None, tracer, k)
+        ctx.violations.append(v)
+    ctx.coverage["finding_witnesses_replayed"] = done
+
+
 def c05(ctx):
     sm_check(ctx, n_quick=240, custom_p=0.2)
     # truncation/termination are normal ends; everything else is a totality violation
+    witness_findings(ctx)
     keep_only(ctx, lambda v: not (v["kind"] == "outcome:maxsteps"))
     witness_hang(ctx)
 
@@ -604,6 +640,7 @@ def c11(ctx):
             # only instances inside the property's configuration class count
             return class_member(v)
         return False
+    witness_findings(ctx)
     keep_only(ctx, relevant)
     witness_hang(ctx)
     witness_deadlock(ctx)
